@@ -324,7 +324,131 @@ def schedules(n_a: int, total: int, tier: str, rng: random.Random) -> List[Tuple
     return out
 
 
+# --------------------------------------------------------------------------------------------
+# cold start: the lazily filled BACKEND_REGISTRY dictionaries (first validation of the process)
+# --------------------------------------------------------------------------------------------
+
+class TracedRegistry(dict):
+    """a BACKEND_REGISTRY whose accesses are scheduling points"""
+
+    def __init__(self, name: str, base: Dict[Any, Any]):
+        super().__init__(base)
+        self.rname = name
+
+    def _key(self, k) -> str:
+        try:
+            return "%s:%s/%s.%s" % (self.rname, k[0].__name__, k[1].__module__.split(".")[0], k[1].__name__)
+        except Exception:  # noqa: BLE001
+            return "%s:%r" % (self.rname, k)
+
+    def _point(self, ev: str, k, hit) -> None:
+        if SCHED is not None and SCHED.active and SCHED.me() is not None:
+            SCHED.point({"ev": ev, "key": self._key(k), "hit": bool(hit), "fn": sys._getframe(2).f_code.co_name})
+
+    def __getitem__(self, k):
+        hit = dict.__contains__(self, k)
+        self._point("reg_read", k, hit)
+        return dict.__getitem__(self, k)
+
+    def __contains__(self, k):
+        hit = dict.__contains__(self, k)
+        self._point("reg_probe", k, hit)
+        return hit
+
+    def __setitem__(self, k, v):
+        dict.__setitem__(self, k, v)
+        self._point("reg_write", k, True)
+
+
+def install_registries() -> None:
+    from pandera.api.base.checks import BaseCheck
+    from pandera.api.base.parsers import BaseParser
+    from pandera.api.base.schema import BaseSchema
+
+    for cls, name in ((BaseSchema, "schema"), (BaseCheck, "check"), (BaseParser, "parser")):
+        cls.BACKEND_REGISTRY = TracedRegistry(name, cls.BACKEND_REGISTRY)
+
+
+def cold_scenarios():
+    import pandas as pd
+    import pandera as pa
+
+    def two_frames():
+        s1 = pa.DataFrameSchema({"a": pa.Column(int, pa.Check.ge(0))})
+        s2 = pa.DataFrameSchema({"a": pa.Column(int, pa.Check.ge(0))})
+        df = lambda: pd.DataFrame({"a": [1, 2]})  # noqa: E731
+        return [lambda: s1.validate(df()), lambda: s2.validate(df())]
+
+    def frame_and_series():
+        s1 = pa.DataFrameSchema({"a": pa.Column(int, pa.Check.ge(0))})
+        s2 = pa.SeriesSchema(int, pa.Check.ge(0))
+        return [lambda: s1.validate(pd.DataFrame({"a": [1, 2]})), lambda: _ser(s2.validate(pd.Series([1, 2])))]
+
+    def _ser(x):
+        return x.to_frame("s")
+
+    return {"cold_two_frames": two_frames, "cold_frame_and_series": frame_and_series}
+
+
+def cold_once(argv) -> int:
+    """one scheduled execution of a cold-start scenario in THIS (fresh) interpreter; prints one JSON record"""
+    global SCHED
+    name, first, sw = argv[0], int(argv[1]), [int(x) for x in argv[2].split(",") if x]
+    import warnings
+
+    warnings.simplefilter("ignore")
+    install_registries()                      # no component / configuration cells are tracked in a cold run
+    jobs = cold_scenarios()[name]()
+    SCHED = Scheduler(["A", "B"], first, sw)
+    res = SCHED.run(jobs)
+    events = [{"ev": "init", "mem": [], "override": [], "owners": [], "cfgloc": 0}] + SCHED.events
+    n = SCHED.count
+    SCHED = None
+    outs = [outcome(r) for r in res]
+    so = []
+    for j in cold_scenarios()[name]():             # the same validations, one at a time, afterwards
+        try:
+            so.append(outcome(("ok", j())))
+        except BaseException as exc:  # noqa: BLE001
+            so.append(outcome(("exc", exc)))
+    print("COLD " + json.dumps({"scenario": name, "relation": "distinct", "first": first, "switch_at": sw, "solo": so,
+                                "outcomes": outs, "events": events, "n": n}))
+    return 0
+
+
+def cold_runs(tier: str) -> List[Dict[str, Any]]:
+    import os
+    import subprocess
+    from concurrent.futures import ThreadPoolExecutor
+
+    env = dict(os.environ)
+
+    def one(args):
+        p = subprocess.run([sys.executable, "-m", "vf.sched", "--cold"] + [str(a) for a in args], env=env, stdout=subprocess.PIPE,
+                           stderr=subprocess.PIPE, text=True, timeout=600)
+        line = next((ln for ln in p.stdout.splitlines() if ln.startswith("COLD ")), None)
+        if line is None:
+            raise RuntimeError("cold run %s failed: %s" % (args, (p.stderr or p.stdout)[-600:]))
+        return json.loads(line[5:])
+
+    out: List[Dict[str, Any]] = []
+    for name in (("cold_two_frames", "cold_frame_and_series") if tier == "thorough" else ("cold_two_frames",)):
+        base = one([name, 0, ""])
+        n = base["n"]
+        pts = list(range(1, n + 1))
+        jobs = [[name, f, str(i)] for f in (0, 1) for i in pts]          # every single preemption
+        if tier == "thorough":
+            jobs += [[name, f, "%d,%d" % (i, j)] for f in (0, 1) for i in pts[::3] for j in pts[::3] if j > i]
+        with ThreadPoolExecutor(max_workers=int(os.environ.get("VERIF_NPROC", "14"))) as ex:
+            out += [base] + list(ex.map(one, jobs))
+    for r in out:
+        r.pop("n", None)
+    return out
+
+
 def main(argv) -> int:
+    if argv and argv[0] == "--cold":
+        return cold_once(argv[1:])
     out, seed, tier = argv[0], int(argv[1]), argv[2]
     import warnings
 
@@ -340,6 +464,7 @@ def main(argv) -> int:
             outs, events, _n, relation = run_once(make, first, sw)
             runs.append({"scenario": name, "relation": relation, "first": first, "switch_at": sw,
                          "solo": so, "outcomes": outs, "events": events})
+    runs += cold_runs(tier)
     with open(out, "w") as fh:
         json.dump(runs, fh)
     print("scheduled executions: %d, events: %d" % (len(runs), sum(len(r["events"]) for r in runs)))
